@@ -3056,8 +3056,163 @@ fn run_child(mode: &str, sink: &mut dyn Write) -> (Option<i32>, Option<i32>, Str
 	(st.code(), st.signal(), err, last)
 }
 
+// ---------------------------------------------------------------------------------------------
+// `dec powsweep`: READ-TIME proof-of-work validation under EVERY chain type and in EVERY hard-fork
+// window. `UntrustedBlockHeader::read` calls `pow::verify_size`, which dispatches on (chain type,
+// edge_bits, header version): on Mainnet / Testnet a 29-bit header of version 1 / 2 / 3 / 4+ goes to the
+// cuckaroo / cuckarood / cuckaroom / cuckarooz verifier, 31+ bits to cuckatoo; the test chain types send
+// everything to cuckatoo. Each of the five verifiers must be reached from the wire readers: headers with
+// (version, height) pairs from each window, edge_bits min / 29 / 31 / 32, and nonce lists of many shapes
+// (all even, all odd, 22 + 20, balanced, ascending or not, repeated, maximal) are decoded as Header, Block
+// and CompactBlock messages through both readers, every call under `catch`. No real work is needed: a
+// verifier must refuse these without panicking. Oracle on the implementation only (no model lines).
+
+fn nonce_shapes(rng: &mut Rng, n: usize, edge_bits: u8) -> Vec<(String, Vec<u64>)> {
+	let mask: u64 = if edge_bits >= 63 { u64::MAX >> 1 } else { (1u64 << edge_bits) - 1 };
+	let asc = |f: &dyn Fn(u64) -> u64| -> Vec<u64> { (0..n as u64).map(|i| f(i) & mask).collect() };
+	let mut v: Vec<(String, Vec<u64>)> = vec![
+		("all-even-ascending".into(), asc(&|i| 2 * i)),
+		("all-odd-ascending".into(), asc(&|i| 2 * i + 1)),
+		("balanced-alternating".into(), asc(&|i| i)),
+		("all-zero".into(), vec![0; n]),
+		("all-max".into(), vec![mask; n]),
+		("descending".into(), (0..n as u64).rev().map(|i| (3 * i + 1) & mask).collect()),
+		("top-of-range-ascending".into(), asc(&|i| mask - (n as u64) + i)),
+	];
+	// k of one parity then n - k of the other, sorted ascending (the shape the parity-split verifiers walk)
+	for k in [n / 2 + 1, n / 2 - 1, n - 1, 1] {
+		for first_even in [true, false] {
+			let mut l: Vec<u64> = vec![];
+			for i in 0..n as u64 {
+				let par = if (i < k as u64) == first_even { 0 } else { 1 };
+				l.push(((2 * (i * 7 + 3)) | par) & mask);
+			}
+			l.sort();
+			v.push((format!("{}-{}-then-{}-ascending", k, if first_even { "even" } else { "odd" }, n - k), l));
+		}
+	}
+	for j in 0..4 {
+		let mut l: Vec<u64> = (0..n).map(|_| rng.next() & mask).collect();
+		if j % 2 == 0 {
+			l.sort();
+		}
+		if j == 2 {
+			for x in l.iter_mut() {
+				*x &= !1;
+			}
+		}
+		if j == 3 {
+			for x in l.iter_mut() {
+				*x |= 1;
+			}
+		}
+		v.push((format!("random-{}", j), l));
+	}
+	v
+}
+
+fn pow_sweep() {
+	quiet_panics();
+	let stdout = std::io::stdout();
+	let mut sink = std::io::BufWriter::new(stdout.lock());
+	let mut rng = Rng::new(seed_from_env() ^ 0x90f);
+	let mut fails = 0u64;
+	let mut stats: BTreeMap<String, u64> = BTreeMap::new();
+	let chains = [(ChainTypes::Mainnet, "Mainnet"), (ChainTypes::Testnet, "Testnet"), (ChainTypes::AutomatedTesting, "AutomatedTesting"), (ChainTypes::UserTesting, "UserTesting")];
+	for (ct, cname) in chains.iter() {
+		global::set_local_chain_type(*ct);
+		// heights: the start, the inside and the last block of every hard-fork window of this chain type
+		let mut bounds: Vec<u64> = vec![0];
+		let mut h = 0u64;
+		let mut last_v = grin_core::consensus::header_version(0);
+		// find the window starts by bisection-free scan over the known schedule sizes
+		for cand in [3u64, 6, 9, 12, 185_040, 262_080, 298_080, 524_160, 552_960, 642_240, 786_240, 1_048_320] {
+			let v = grin_core::consensus::header_version(cand);
+			if v != last_v && cand > h {
+				bounds.push(cand);
+				last_v = v;
+				h = cand;
+			}
+		}
+		let mut heights: Vec<u64> = vec![];
+		for (i, b) in bounds.iter().enumerate() {
+			heights.push(*b);
+			heights.push(*b + 1);
+			let end = bounds.get(i + 1).cloned().unwrap_or(*b + 100_000);
+			heights.push(*b + (end - *b) / 2);
+			heights.push(end - 1);
+		}
+		heights.sort();
+		heights.dedup();
+		let n = global::proofsize();
+		let mut ebs: Vec<u8> = vec![global::min_edge_bits(), 29, 31, 32];
+		ebs.sort();
+		ebs.dedup();
+		for height in heights.iter() {
+			let version = grin_core::consensus::header_version(*height);
+			for eb in ebs.iter() {
+				for (shape, nonces) in nonce_shapes(&mut rng, n, *eb) {
+					let hd = BlockHeader {
+						version,
+						height: *height,
+						prev_hash: hash32(&mut rng),
+						prev_root: hash32(&mut rng),
+						timestamp: chrono::DateTime::<chrono::Utc>::from_timestamp(1_600_000_000, 0).unwrap(),
+						output_root: hash32(&mut rng),
+						range_proof_root: hash32(&mut rng),
+						kernel_root: hash32(&mut rng),
+						total_kernel_offset: BlindingFactor::from_slice(&rng.bytes(32)),
+						output_mmr_size: 4,
+						kernel_mmr_size: 3,
+						pow: ProofOfWork { total_difficulty: Difficulty::from_num(5), secondary_scaling: 1, nonce: rng.next(), proof: Proof { edge_bits: *eb, nonces: nonces.clone() } },
+					};
+					let hb = match catch(std::panic::AssertUnwindSafe(|| ser::ser_vec(&hd, ProtocolVersion(2)))) {
+						Ok(Ok(b)) => b,
+						_ => {
+							*stats.entry(format!("powsweep {} header not writable", cname)).or_insert(0) += 1;
+							continue;
+						}
+					};
+					let mut block = hb.clone();
+					block.extend_from_slice(&[0u8; 24]);
+					let mut cblock = hb.clone();
+					cblock.extend_from_slice(&rng.bytes(8));
+					cblock.extend_from_slice(&[0u8; 24]);
+					for (what, bytes) in [("Header", &hb), ("Block", &block), ("CompactBlock", &cblock)] {
+						for buf in [false, true] {
+							let r: Result<String, String> = match what {
+								"Header" => read_with::<UntrustedBlockHeader>(buf, bytes, 2).0.map(|r| if r.is_ok() { "ok".into() } else { "err".into() }),
+								"Block" => read_with::<UntrustedBlock>(buf, bytes, 2).0.map(|r| if r.is_ok() { "ok".into() } else { "err".into() }),
+								_ => read_with::<UntrustedCompactBlock>(buf, bytes, 2).0.map(|r| if r.is_ok() { "ok".into() } else { "err".into() }),
+							};
+							match r {
+								Ok(c) => *stats.entry(format!("powsweep {} v{} eb{} {} {}", cname, version.0, eb, what, c)).or_insert(0) += 1,
+								Err(msg) => {
+									fails += 1;
+									if fails <= 30 {
+										let _ = writeln!(sink, "#ORACLE-FAIL C11 read-time pow validation panicked: {} v{} h{} edge_bits {} {} ({}, {}; {}) nonces {}", cname, version.0, height, eb, what, if buf { "BufReader" } else { "BinReader" }, shape, msg.replace('\n', " "), nat_list(&nonces));
+									}
+								}
+							}
+						}
+					}
+				}
+			}
+		}
+	}
+	for (k, v) in stats.iter() {
+		let _ = writeln!(sink, "#STAT {} = {}", k, v);
+	}
+	let _ = writeln!(sink, "#STAT powsweep oracle failures = {}", fails);
+	let _ = sink.flush();
+}
+
 fn main() {
 	let args: Vec<String> = std::env::args().collect();
+	if args.len() >= 2 && args[1] == "powsweep" {
+		pow_sweep();
+		return;
+	}
 	if args.len() >= 3 && args[1] == "child" {
 		child_main(&args[2]);
 		return;
